@@ -190,6 +190,168 @@ def unit_foreign(model):
     return recs
 
 
+class PrefixDone(BaseException):
+    """raised by the stubbed copy.deepcopy: the validation prefix of rate() has accepted the call"""
+
+
+def unit_unbounded(model):
+    """loop-invariant proofs for ANY number of teams, players, ranks and scores:
+    _check_teams returns iff the teams are well-formed (else TypeError / ValueError), and the
+    validation prefix of rate() (up to its first effectful statement, the deep copy) accepts
+    iff the whole call is well-formed - with _check_teams replaced by the contract just proved."""
+    from .. import loops, scan, tactics
+    from ..loops import CutLoops, LoopSpec, LOOP_REBINDS, make_loop_factory
+    import ast
+    recs = []
+    relpath = extract.MODEL_FILES[model]
+    I = z3.IntSort()
+    ttag, tlen = z3.Function("ttag", I, I), z3.Function("tlen", I, I)
+    ptag = z3.Function("ptag", I, I, I)
+    rtag, stag = z3.Function("rtag", I, I), z3.Function("stag", I, I)
+    OWN, LIST = AnyObj.OWN, AnyObj.LIST
+    i, p, j = z3.Ints("i!q p!q j!q")
+
+    def wf_team(k):
+        return z3.And(ttag(k) == LIST, tlen(k) >= 1, z3.ForAll([p], z3.Implies(z3.And(p >= 0, p < tlen(k)), ptag(k, p) == OWN)))
+
+    def isnum(t):
+        return z3.Or(t == AnyObj.BOOL, t == AnyObj.INT, t == AnyObj.FLOAT)
+
+    def truthy(o):
+        t = o.tag
+        return z3.If(t == AnyObj.NONE, False, z3.If(z3.Or(t == AnyObj.BOOL, t == AnyObj.INT, t == AnyObj.FLOAT), o.value != 0,
+                     z3.If(z3.Or([t == k for k in (AnyObj.STR, AnyObj.TUPLE, AnyObj.DICT, AnyObj.LIST)]), o.length > 0, True)))
+
+    def world(ctx, S):
+        R = S.rating_cls
+
+        def player(k, q):
+            return AnyObj("player", ctx, own_cls=R, tag=ptag(k, q), assume_domain=False)
+
+        def team(k):
+            t = AnyObj("team", ctx, own_cls=R, tag=ttag(k), length=tlen(k), elem=lambda q, k=k: player(k, q), assume_domain=False)
+            t.__dict__["idx"] = k
+            return t
+        teams = AnyObj("teams", ctx, own_cls=R, elem=team)
+        ctx.assume(z3.ForAll([i], z3.And(ttag(i) >= 0, ttag(i) <= 10, tlen(i) >= 0)))
+        ctx.assume(z3.ForAll([i, p], z3.And(ptag(i, p) >= 0, ptag(i, p) <= 10)))
+        wf = z3.And(teams.tag == LIST, teams.length >= 2, z3.ForAll([i], z3.Implies(z3.And(i >= 0, i < teams.length), wf_team(i))))
+        return teams, wf
+
+    # ---------------- _check_teams
+    q = f"{model}._check_teams"
+    specs = {
+        (q, 1): LoopSpec([], lambda k, st, lc: z3.ForAll([i], z3.Implies(z3.And(i >= 0, i < k), wf_team(i)))),
+        (q, 2): LoopSpec([], lambda k, st, lc: z3.ForAll([p], z3.Implies(z3.And(p >= 0, p < k), ptag(lc.iterable.idx, p) == OWN))),
+    }
+    tr = CutLoops(specs)
+    S = extract.Scratch(model, transforms={relpath: [tr]})
+    S.ns.update(LOOP_REBINDS)
+    S.ns["__pyvc_loop__"] = make_loop_factory(specs)
+    if sorted(tr.cut) != sorted(specs):
+        return [driver.rec(f"C13/{model}/_check_teams/loops-found", "open", "ast", 0, fn=q, note=f"cut {tr.cut}")]
+    ctx = Ctx("U", feas_timeout_ms=1500)
+    counts = {"return": 0, "raise": 0}
+
+    def run(ctx):
+        teams, wf = world(ctx, S)
+        out = call(S.cls._check_teams, teams)
+        meta = {"fn": q, "unbounded": True, "replay": {"kind": "c13_unbounded", "model": model}}
+        if out[0] == "return":
+            counts["return"] += 1
+            ctx.oblige(f"C13/{model}/_check_teams/returns-only-if-well-formed", wf, meta=meta)
+            ctx.oblige(f"C13/{model}/_check_teams/canary-returns-only-for-3-teams", teams.length >= 3, kind="canary", meta={"fn": q})
+        else:
+            counts["raise"] += 1
+            ctx.oblige(f"C13/{model}/_check_teams/raises-only-TypeError-or-ValueError", type(out[1]) in (TypeError, ValueError), meta=dict(meta, note=repr(out[1])[:100]))
+            ctx.oblige(f"C13/{model}/_check_teams/raises-only-if-malformed", z3.Not(wf), meta=meta)
+    explore(ctx, run)
+    from .util import settle
+    recs += _merge_canaries_open(settle(ctx.all_obls, mode="U", unbounded=True, timeout_ms=30000, canary_timeout_ms=2000))
+    if not counts["return"] or not counts["raise"]:
+        recs.append(driver.rec(f"C13/{model}/_check_teams/both-outcomes-reachable", "open", "explorer", 0, kind="vacuity", note=str(counts)))
+
+    # ---------------- validation prefix of rate()
+    q2 = f"{model}.rate"
+    specs2 = {
+        (q2, 1): LoopSpec([], lambda k, st, lc: z3.ForAll([j], z3.Implies(z3.And(j >= 0, j < k), isnum(rtag(j))))),
+        (q2, 2): LoopSpec([], lambda k, st, lc: z3.ForAll([j], z3.Implies(z3.And(j >= 0, j < k), isnum(stag(j))))),
+    }
+    tr2 = CutLoops(specs2)
+    S2 = extract.Scratch(model, transforms={relpath: [tr2]})
+    S2.ns.update(LOOP_REBINDS)
+    S2.ns["__pyvc_loop__"] = make_loop_factory(specs2)
+
+    class _Copy:
+        @staticmethod
+        def deepcopy(x, memo=None):
+            raise PrefixDone()
+    S2.ns["copy"] = _Copy
+    ctx = Ctx("U", feas_timeout_ms=1500)
+    counts2 = {"accept": 0, "raise": 0}
+
+    def run2(ctx):
+        teams, wf = world(ctx, S2)
+        R = S2.rating_cls
+
+        def check_teams_contract(_teams):
+            # contract proved above: returns iff well-formed, else TypeError or ValueError
+            if ctx.decide(wf):
+                return None
+            raise TypeError("malformed teams (contract stub)")
+        S2.cls._check_teams = staticmethod(check_teams_contract)
+        ctx.assume(z3.ForAll([j], z3.And(rtag(j) >= 0, rtag(j) <= 10, stag(j) >= 0, stag(j) <= 10)))
+        ranks = AnyObj("ranks", ctx, own_cls=R, elem=lambda k: AnyObj("rank", ctx, own_cls=R, tag=rtag(k), assume_domain=False))
+        scores = AnyObj("scores", ctx, own_cls=R, elem=lambda k: AnyObj("score", ctx, own_cls=R, tag=stag(k), assume_domain=False))
+        m, _ = game.mk_model(ctx, S2)
+
+        def vec_ok(o, tagf):
+            return z3.Implies(truthy(o), z3.And(o.tag == LIST, o.length == teams.length,
+                                                z3.ForAll([j], z3.Implies(z3.And(j >= 0, j < o.length), isnum(tagf(j))))))
+        valid = z3.And(wf, vec_ok(ranks, rtag), vec_ok(scores, stag), z3.Not(z3.And(truthy(ranks), truthy(scores))))
+        meta = {"fn": q2, "unbounded": True, "replay": {"kind": "c13_unbounded", "model": model}}
+        try:
+            out = call(m.rate, teams, ranks=ranks, scores=scores)
+        except PrefixDone:
+            counts2["accept"] += 1
+            ctx.oblige(f"C13/{model}/rate/prefix-accepts-only-well-formed-calls", valid, meta=meta)
+            return
+        if out[0] == "return":
+            ctx.oblige(f"C13/{model}/rate/prefix-reaches-the-copy", False, meta=meta)
+            return
+        counts2["raise"] += 1
+        ctx.oblige(f"C13/{model}/rate/prefix-raises-only-TypeError-or-ValueError", type(out[1]) in (TypeError, ValueError), meta=dict(meta, note=repr(out[1])[:100]))
+        ctx.oblige(f"C13/{model}/rate/prefix-rejects-only-malformed-calls", z3.Not(valid), meta=meta)
+    explore(ctx, run2)
+    recs += settle(ctx.all_obls, mode="U", unbounded=True, timeout_ms=30000, canary_timeout_ms=2000)
+    if not counts2["accept"] or not counts2["raise"]:
+        recs.append(driver.rec(f"C13/{model}/rate/prefix-both-outcomes-reachable", "open", "explorer", 0, kind="vacuity", note=str(counts2)))
+
+    # ---------------- frame of the prefix: syntactic, for any number of objects
+    tree = extract.parse(relpath)
+    fn = extract.find_function(tree, f"{model}.rate")
+    f, npre = scan.prefix_is_pure(fn, allowed_calls=("isinstance", "len", "ValueError", "TypeError", "self._check_teams"))
+    recs.append(driver.rec(f"C13/{model}/rate/prefix-writes-nothing", "discharged" if not f and npre >= 2 else "refuted", "ast-scan", 0, fn=q2, unbounded=True,
+                           note=str(f[:4]) if f else f"{npre} prefix statements", replay={"kind": "c13_unbounded", "model": model} if f else None))
+    fn2 = extract.find_function(tree, f"{model}._check_teams")
+    f2 = [(n.lineno, "store / call in _check_teams") for n in ast.walk(fn2)
+          if isinstance(n, (ast.Assign, ast.AugAssign, ast.Delete)) or
+          (isinstance(n, ast.Call) and not (isinstance(n.func, ast.Name) and n.func.id in ("isinstance", "len", "TypeError", "ValueError")))]
+    recs.append(driver.rec(f"C13/{model}/_check_teams/writes-nothing", "discharged" if not f2 else "refuted", "ast-scan", 0, fn=q, unbounded=True,
+                           note=str(f2[:4]), replay={"kind": "c13_unbounded", "model": model} if f2 else None))
+    return recs
+
+
+def _merge_canaries_open(recs):
+    """canaries over quantified goals count as refuted when the solver cannot prove them"""
+    out = []
+    for r in _merge_canaries(recs):
+        if r["kind"] == "canary" and r["verdict"] == "open":
+            r = dict(r, verdict="refuted", note="not provable (quantified goal: unknown)")
+        out.append(r)
+    return out
+
+
 def units(tier):
     us = []
     mt, ms = (3, 2) if tier == "quick" else (4, 2)
@@ -199,6 +361,7 @@ def units(tier):
         for sizes in ([(1, 1), (2, 1, 1)] if tier == "quick" else [(1, 1), (2, 1, 1), (1, 1, 1, 2)]):
             us.append(("unit_vectors", (m, sizes)))
         us.append(("unit_foreign", (m,)))
+        us.append(("unit_unbounded", (m,)))
     return us
 
 
